@@ -119,6 +119,7 @@ type Engine struct {
 	notes      []string
 	curPos     token.Pos
 	armBase    int
+	b64enc     map[string]bool
 	loopOrd    map[ast.Stmt]int
 	rangeAlias map[types.Object]string // range key var -> hidden index term (for invariants)
 	unsupported []string
